@@ -2,6 +2,7 @@ import OdlModel.Common
 import OdlModel.Model.CRat
 import OdlModel.Model.OpAlgebra
 import OdlModel.Model.OpDispatch
+import OdlModel.Model.OpLeaves
 import OdlModel.Gen.AlgebraDispatch
 open OdlModel OdlModel.OpAlgebra
 
@@ -47,21 +48,22 @@ def parseLeafKind (id : Nat) (parts : List String) : Option (Leaf × (V → V)) 
       let nr ← nr.toNat?
       let m ← (rows.splitOn ";").mapM parseCList
       if m.length ≠ nr || m.any (·.length ≠ nd) then none
-      let ma := m.toArray.map (·.toArray)
-      some (⟨id, .vec nd, .vec nr, true, false⟩, fun x =>
-        let xs := (toList nd x).toArray
-        fun j => if j < nr then sumTo nd (fun k => ((ma.getD j #[]).getD k 0) * xs.getD k 0) else 0)
+      let sp : LeafSpec CRat := .mat nd nr m
+      some (sp.info id, sp.map)
   | ["scale", n, c] => do
       let n ← n.toNat?
       let c ← CRat.parse c
-      some (⟨id, .vec n, .vec n, true, false⟩, fun x j => if j < n then c * x j else 0)
+      let sp : LeafSpec CRat := .scale n c
+      some (sp.info id, sp.map)
   | ["ident", n] => do
       let n ← n.toNat?
-      some (⟨id, .vec n, .vec n, true, false⟩, fun x j => if j < n then x j else 0)
+      let sp : LeafSpec CRat := .ident n
+      some (sp.info id, sp.map)
   | ["pow", n, p] => do
       let n ← n.toNat?
       let p ← p.toNat?
-      some (⟨id, .vec n, .vec n, false, false⟩, fun x j => if j < n then cpow (x j) p else 0)
+      let sp : LeafSpec CRat := .pow n p
+      some (sp.info id, sp.map)
   | ["scalef", c] => do
       let c ← CRat.parse c
       some (⟨id, .fld, .fld, true, false⟩, fun x => let v := c * x 0; fun _ => v)
@@ -71,8 +73,8 @@ def parseLeafKind (id : Nat) (parts : List String) : Option (Leaf × (V → V)) 
   | ["shift", n, p] => do   -- harness operator out[j] = x[(j+1) mod n] ^ p (not alias-safe)
       let n ← n.toNat?
       let p ← p.toNat?
-      some (⟨id, .vec n, .vec n, p == 1, false⟩,
-        fun x j => if j < n then cpow (x ((j + 1) % n)) p else 0)
+      let sp : LeafSpec CRat := .shift n p
+      some (sp.info id, sp.map)
   | ["repart", n] => do   -- ComplexEmbedding ∘ RealPart on cn(n): real-linear only
       let n ← n.toNat?
       some (⟨id, .vec n, .vec n, true, false⟩, fun x j => if j < n then ⟨(x j).re, 0⟩ else 0)
@@ -103,10 +105,12 @@ def parseLeafKind (id : Nat) (parts : List String) : Option (Leaf × (V → V)) 
   | ["constf", n, c] => do
       let n ← n.toNat?
       let c ← CRat.parse c
-      some (⟨id, .vec n, .fld, decide (c = 0), true⟩, fun _ _ => c)
+      let sp : LeafSpec CRat := .constf n c
+      some (sp.info id, sp.map)
   | ["zerof", n] => do
       let n ← n.toNat?
-      some (⟨id, .vec n, .fld, true, true⟩, fun _ _ => 0)
+      let sp : LeafSpec CRat := .zerof n
+      some (sp.info id, sp.map)
   | _ => none
 
 /-- `<lin><fn>~kind~…`: the two flags are read from the live object by the harness
